@@ -114,13 +114,14 @@ class SRec(Sym):
 class SSeq(Sym):
     """Immutable sequence of symbolic length. `item(k)` gives the value at a (concrete or
     symbolic) index lazily; `n` is a z3 Int >= 0."""
-    __slots__ = ("n", "name", "mk", "_cache")
+    __slots__ = ("n", "name", "mk", "_cache", "item_desc")
 
     def __init__(self, n, name, mk):
         self.n = n
         self.name = name
         self.mk = mk
         self._cache = {}
+        self.item_desc = None
 
     def item(self, k):
         key = k if isinstance(k, int) else str(k)
